@@ -142,6 +142,8 @@ add(TT + "Terminal::get_current|unwrap|expect(get(&*deref(&*self.history.list), 
     "taken only when is_next() is false, i.e. history.index < history.list.len()", callee=ISNEXT, outcome="false")
 add(TT + "Terminal::update_next|unwrap|expect(get(&*deref(&*self.history.list), *self.history.index))", "dominated-by-call",
     "taken only when is_next() is false, i.e. history.index < history.list.len()", callee=ISNEXT, outcome="false")
+add(TT + "Terminal::print_prompt|unwrap|expect(get(&*deref(&*self.history.list), *self.history.index))", "dominated-by-call",
+    "taken only when is_next() is false, i.e. history.index < history.list.len()", callee=ISNEXT, outcome="false")
 add(TT + "Terminal::is_next|panic:debug_assert|debug_assert!(index went past history)", "field-writers",
     "history.index is len at construction/after a line, and only moves by -1 under index > 0 or +1 under index < len (both guards discharged in the same ledger)",
     adt=TADT + "TerminalHistory", field="index",
